@@ -48,7 +48,7 @@ Proof. eexists. split; [apply Inv_set; apply Inv_init|]. repeat split; discrimin
 
 (* ---- the concurrent case: a read's cache fill against a write-through, any number of tasks,
    every step of every task a scheduling point (CacheProto.v; TicketLocked = the protocol of the code) *)
-From Akd Require Import CacheProto.
+From Akd Require Import CacheProto CacheRegular.
 Close Scope N_scope.
 
 (* in every reachable state in which no write is in progress the cache holds nothing or what the data
@@ -95,3 +95,20 @@ Theorem C16_check_outside_lock_refuted :
   p_started s = p_completed s /\ p_db s = 1 /\ p_cache s = Some 0.
 Proof. exact split_check_refuted. Qed.
 Print Assumptions C16_check_outside_lock_refuted.
+
+(* ---- what a read may return WHILE writes are going on (CacheRegular.v).  The run carries a ghost
+   state: for every read its admissible values - the value of the last completed write and the data
+   layer's value when the read starts, plus every value put into the data layer while the read is
+   active.  Under every schedule a finished read has returned one of them: reads through the cache
+   are regular (old or new of an overlapping write, the data layer's value otherwise). *)
+Theorem C16_reads_are_regular : forall d rs ws sched,
+  let x := grun (ginit d rs ws) sched in
+  forall i v, nth_error (p_readers (fst x)) i = Some (RDone v) -> In v (g_adm (snd x) i).
+Proof. exact reads_are_regular. Qed.
+Print Assumptions C16_reads_are_regular.
+
+(* the ghost state does not influence the run *)
+Theorem C16_ghost_run_projects : forall d rs ws sched,
+  fst (grun (ginit d rs ws) sched) = prun TicketLocked (pinit d rs ws) sched.
+Proof. exact grun_projects. Qed.
+Print Assumptions C16_ghost_run_projects.
